@@ -2,6 +2,7 @@ package main
 
 import (
 	"fmt"
+	"path/filepath"
 	"strings"
 	"sync/atomic"
 	"time"
@@ -213,7 +214,7 @@ func c18Statement(r *core.Rand, g *gen.StmtGen) (string, string) {
 }
 
 func checkC18(c *core.Ctx) []core.Floor {
-	c.Rule = "sessions in four states (no USE; after a failed USE; database selected; failed USE after a successful one) executing statements from type-confused families over tables with all four column types, NULLs in every nullable column and an empty table: AVG/COUNT over every type and over NULLs, ORDER BY over NULL-bearing columns, comparisons between every pair of types and with NULL-padded join sides, bare columns/literals as conditions, missing / ambiguous / duplicated columns and aliases, GROUP BY on other columns, LIMIT/OFFSET at the edge of 64 bits, database / table / column names no file system takes (255-5000 characters, path separators, dot names, NUL, empty), INSERT / UPDATE / DELETE addressed to the catalog tables sys_pages and sys_schema (followed by ordinary statements), a table without columns (0-3 rows) alone and on either side of every kind of join, statements of every family cut short at a token boundary (those the parser still accepts reach the executor, e.g. INSERT ... VALUES without a tuple), INSERT with wrong arity / unknown / repeated columns / empty VALUES, UPDATE from a column, DDL and database statements, plus random statements from the C10 grammar over the same names. Monitor: recover() around Session.ExecQuery in a child process (a dead child names its statement); wall-clock watchdog only as inconclusive. One case in eleven runs against the REAL 100 ms flush goroutine instead: multi-row INSERT, UPDATE, DELETE, CREATE TABLE and SELECTs (valid and type-confused) on a cold or warm cache, each held open by a sleep of 2-3 timer periods at its first cache miss, its second page change or inside its log append, so that a flush request is pending while the statement goes on; a script that does not finish is run a second time on its own with a 120 s allowance, and only if it stops at the same statement again is that reported as a hang. Distinct = (session state, statement text); non-trivial = the statement parsed (it reached execution)."
+	c.Rule = "sessions in four states (no USE; after a failed USE; database selected; failed USE after a successful one) executing statements from type-confused families over tables with all four column types, NULLs in every nullable column and an empty table: AVG/COUNT over every type and over NULLs, ORDER BY over NULL-bearing columns, comparisons between every pair of types and with NULL-padded join sides, bare columns/literals as conditions, missing / ambiguous / duplicated columns and aliases, GROUP BY on other columns, LIMIT/OFFSET at the edge of 64 bits, database / table / column names no file system takes (255-5000 characters, path separators, dot names, NUL, empty), INSERT / UPDATE / DELETE addressed to the catalog tables sys_pages and sys_schema (followed by ordinary statements), a table without columns (0-3 rows) alone and on either side of every kind of join, statements of every family cut short at a token boundary (those the parser still accepts reach the executor, e.g. INSERT ... VALUES without a tuple), INSERT with wrong arity / unknown / repeated columns / empty VALUES, UPDATE from a column, DDL and database statements, plus random statements from the C10 grammar over the same names; one session in forty fills a table with 4097-20000 rows and runs the type-confused conditions over it in SELECT, UPDATE and DELETE (a session that does not finish is run again with 300 s; only a second stop at the same statement is a hang). Monitor: recover() around Session.ExecQuery in a child process (a dead child names its statement); wall-clock watchdog only as inconclusive. One case in eleven runs against the REAL 100 ms flush goroutine instead: multi-row INSERT, UPDATE, DELETE, CREATE TABLE and SELECTs (valid and type-confused) on a cold or warm cache, each held open by a sleep of 2-3 timer periods at its first cache miss, its second page change or inside its log append, so that a flush request is pending while the statement goes on; a script that does not finish is run a second time on its own with a 120 s allowance, and only if it stops at the same statement again is that reported as a hang. Distinct = (session state, statement text); non-trivial = the statement parsed (it reached execution)."
 	c.Assume = []string{"any result or error value is acceptable; only panics, process death and hangs are judged"}
 	drv := mustDriver(c, false)
 	n := 600
@@ -222,7 +223,8 @@ func checkC18(c *core.Ctx) []core.Floor {
 	}
 	core.ParallelFor(n, c.Workers, func(i int) { runC18(c, drv, i) })
 	core.ParallelFor(n/10, c.Workers, func(i int) { runC18Ticker(c, drv, i) })
-	fl := []core.Floor{{Key: "statements", Min: 5000}, {Key: "outcome_ok", Min: 500}, {Key: "outcome_error", Min: 1000}, {Key: "ticker_statements_held_open_across_a_tick", Min: 100}}
+	core.ParallelFor(n/40, c.Workers, func(i int) { runC18Big(c, drv, i) })
+	fl := []core.Floor{{Key: "statements", Min: 5000}, {Key: "outcome_ok", Min: 500}, {Key: "outcome_error", Min: 1000}, {Key: "ticker_statements_held_open_across_a_tick", Min: 100}, {Key: "family_big_table", Min: 100}}
 	for _, st := range []string{"no_use", "failed_use", "selected", "failed_use_after_use"} {
 		fl = append(fl, core.Floor{Key: "state_" + st, Min: 100})
 	}
@@ -463,4 +465,80 @@ func runC18Ticker(c *core.Ctx, drv string, idx int) {
 		return
 	}
 	c.Inconclusive("watchdog", "C18 ticker session exceeded the wall-clock watchdog once, not when repeated: "+q)
+}
+
+// runC18Big: the type-confused conditions again, over a table of thousands of
+// rows (whatever an implementation does differently from some row count on -
+// chunks, workers, early exits - has to return as well). A script that does not
+// finish is run a second time with a generous allowance; only a second stop at
+// the same statement is a hang.
+func runC18Big(c *core.Ctx, drv string, idx int) {
+	dir := c.CaseDir("c18b")
+	defer removeAll(dir)
+	r := core.NewRand(core.SubSeed(c.Seed, "C18B", idx))
+	var s script
+	s.cfg(true, 0)
+	s.k("init")
+	s.sql("CREATE DATABASE d1")
+	s.sql("USE d1")
+	s.sql("CREATE TABLE big (i INT, s VARCHAR(8), n INT, f BOOLEAN)")
+	nrows := []int{8192, 9000, 12288, 20000, 4097}[idx%5]
+	for from := 0; from < nrows; from += 1000 {
+		ins := &proto.Stmt{Kind: "insert", Table: "big"}
+		for k := from; k < from+1000 && k < nrows; k++ {
+			row := []proto.Val{proto.Int(int64(k)), proto.Str(fmt.Sprintf("v%d", k%7)), proto.Null(), proto.Bool(k%2 == 0)}
+			if k%3 == 0 {
+				row[2] = proto.Int(int64(k % 5))
+			}
+			ins.Rows = append(ins.Rows, row)
+		}
+		s.stmt(ins)
+	}
+	first := len(s.ops)
+	conds := []string{"s > 5", "i >= 'x'", "n < 3", "n > i", "f > 1", "s = 1 OR i = 'a'", "i = 1 AND s < 2", "n = 1", "f = 'true'", "i < 100 AND n > 0", "s", "1", "zz = 1"}
+	for k := 0; k < 14; k++ {
+		cd := pick(r, conds)
+		q := pick(r, []string{"SELECT i FROM big WHERE %s", "SELECT count(*) FROM big WHERE %s", "UPDATE big SET n = 1 WHERE %s", "DELETE FROM big WHERE %s", "SELECT * FROM big WHERE %s ORDER BY n", "SELECT s, count(*) FROM big WHERE %s GROUP BY s"})
+		s.sql(fmt.Sprintf(q, cd))
+	}
+	run := func(limit time.Duration) *core.RunOut { return core.RunScript(drv, dir, s.ops, limit) }
+	out := run(90 * time.Second)
+	for k := first; k < len(out.Res); k++ {
+		res := &out.Res[k]
+		q := string(s.ops[k].SQL)
+		c.Count("statements", 1)
+		c.Count("family_big_table", 1)
+		c.Eval("big/"+fmt.Sprint(nrows)+"/"+q, true)
+		switch {
+		case res.Panic != "":
+			c.Violation("C18:panic:"+res.Frame, fmt.Sprintf("[table of %d rows] statement panicked: %s\n%s", nrows, res.Panic, q), map[string]interface{}{"rows": nrows, "statement": q, "stack": clip(res.Stack, 1500)})
+		case res.Err != "":
+			c.Count("outcome_error", 1)
+		default:
+			c.Count("outcome_ok", 1)
+		}
+	}
+	if !out.Died {
+		return
+	}
+	q := ""
+	if out.LastBeg >= 0 && out.LastBeg < len(s.ops) {
+		q = string(s.ops[out.LastBeg].SQL)
+	}
+	if !out.TimedOut {
+		c.Violation("C18:process-died:"+errClass(core.FatalTail(out.Stderr)), fmt.Sprintf("[table of %d rows] the process died executing: %s\n%s", nrows, q, core.FatalTail(out.Stderr)), map[string]interface{}{"rows": nrows, "statement": q})
+		return
+	}
+	if atomic.LoadInt32(&c18HangsConfirmed) >= 2 {
+		return
+	}
+	at := out.LastBeg
+	removeAll(filepath.Join(dir, "data"))
+	out2 := run(300 * time.Second)
+	if out2.Died && out2.TimedOut && out2.LastBeg == at {
+		atomic.AddInt32(&c18HangsConfirmed, 1)
+		c.Violation("C18:hang:big-table", fmt.Sprintf("statement over a table of %d rows never returned (twice, the second time with 300 s for a script that takes about a second): %s", nrows, q), map[string]interface{}{"rows": nrows, "statement": q, "how": "timer off, one session; the table is filled with INSERTs of 1000 rows"})
+		return
+	}
+	c.Inconclusive("watchdog", "C18 big-table session exceeded the wall-clock watchdog once, not when repeated: "+q)
 }
